@@ -282,6 +282,7 @@ def run_batch(batch: dict) -> dict:
                     if key is not None:
                         res["violations"].append({"key": key, "entry": entry, "content": content, "fault": fault,
                                                   "base": base, "outcome": o, "spelling": task["spelling"]})
+        res["slow_max_steps"] = worldb.SLOW_MAX[0]
         res["second_opens"] = env.opens
         res["default_encoding_opens"] = env.default_encoding_opens
     finally:
@@ -374,7 +375,7 @@ def check(prop: str, tier: str, evidence_text: dict) -> int:
     samples = []
     examples: dict[str, dict] = {}
     tr = time.monotonic()
-    cut_short = budget_seen = 0
+    cut_short = budget_seen = slow_max = 0
     for idx, (status, res) in kernel.run_tasks(run_batch, batches, wall_timeout=1200.0):
         if status != "ok":
             report.harness(f"batch {idx}: {status}: {res}")
@@ -387,6 +388,7 @@ def check(prop: str, tier: str, evidence_text: dict) -> int:
         if len(samples) < 6:
             samples.extend(res["samples"][:1])
         cut_short += bool(res["cut_short"])
+        slow_max = max(slow_max, res.get("slow_max_steps", 0))
         budget_seen += sum(n for k, n in res["violation_counts"].items() if k.startswith("budget|"))
         if budget_seen >= 8 and not os.path.exists(abort_flag):
             open(abort_flag, "w").close()
@@ -456,6 +458,8 @@ def check(prop: str, tier: str, evidence_text: dict) -> int:
         "eof_injected_while": agg["eof_probe"],
         "slow_inputs_rechecked_under_step_clock": agg["slow"],
         "batches_cut_short_by_nontermination_breaker": cut_short,
+        "largest_step_count_of_a_slow_input_that_terminated": slow_max,
+        "step_budget": worldb.HARD_BUDGET,
         "file_opens_observed": agg["second_opens"],
         "default_encoding_opens": agg["default_encoding_opens"],
         "contents_per_hour": round(agg["contents"] / max(run_s, 1e-9) * 3600),
